@@ -95,10 +95,11 @@ class CommandRun:
         out = []
         pub = W.public_methods()
         names = sorted(pub) if self.methods is None else [m for m in self.methods]
-        if self.pin_halt:
+        induction = self.pin_halt and self._induction_needed(W)
+        if induction:
             names = names + [n for n in sorted(pub) if n not in names]      # the induction needs every command
         for n in names:
-            if not self.analysed_command(n) and not self.pin_halt:
+            if not self.analysed_command(n) and not induction:
                 continue
             if n not in pub:
                 raise AnalysisError(f"{self.cls_name} has no public method {n}")
@@ -109,6 +110,20 @@ class CommandRun:
                 for b in bodies:
                     out.append((n, i, b))
         return out
+
+    def _halt_key(self):
+        return (self.repo, self.cls_name, self.tier, self.with_invalid, self.io_failures, self.transform, id(self.pins) if self.pins is not None else None,
+                self.per_path_setup is None, tuple(self.cm_body))
+
+    def _induction_needed(self, W):
+        """The commands a rule does not list are explored only to discharge the halt-mode invariant: not needed when the
+        class has no state object (GCodeCore: nothing to assume), nor when an earlier run of this process discharged it
+        for the same tree, class, tier and exploration settings."""
+        try:
+            W.ref("state")
+        except AnalysisError:
+            return False
+        return not _HALT_PROVED.get(self._halt_key())
 
     def analysed_command(self, n):
         return n not in self.exclude and (self.methods is None or n in self.methods)
@@ -172,6 +187,9 @@ class CommandRun:
                 self.pin_halt = False
                 results = self._run(analyse)
             else:
+                if _HALT_PROVED.get(self._halt_key()):
+                    self.halt_note_prefix = "discharged by an earlier run of this process with the same settings; "
+                _HALT_PROVED[self._halt_key()] = True
                 self.halt_note = ("inductive: the constructor leaves the halt mode OFF and every path of every public command that returns or "
                                   "raises an exception a caller can catch ends with it OFF, so commands are analysed from halt mode OFF")
         self.stats["halt_mode_invariant"] = self.halt_note or "not used"
@@ -253,6 +271,7 @@ def halt_invariant_witness(W, name, desc, res):
     return f"{name}({desc}) {how} with the halt mode {v!r}"
 
 
+_HALT_PROVED = {}
 _RUN = None
 _ANALYSE = None
 _WORLD = None
